@@ -197,7 +197,14 @@ func (o *Outcome) Logf(format string, a ...any) {
 func (o *Outcome) Step(kind string, target any) {
 	o.Steps++
 	o.Sig = mix64(o.Sig ^ H(kind, target))
+	if stepLog {
+		o.Log = append(o.Log, fmt.Sprintf("STEP %d t=%v %s %v", o.Steps, time.Now().UnixNano()%1_000_000_000_000, kind, target))
+	}
 }
+
+// stepLog (VERIF_STEPLOG=1): every delivered stimulus goes into the run's log;
+// for hunting down a divergence between two executions of one plan.
+var stepLog = os.Getenv("VERIF_STEPLOG") != ""
 
 // ---------------------------------------------------------------------------
 // Check registry
